@@ -15,8 +15,8 @@ from ..interp import Event, Path
 from ..loader import AnalysisError, Program
 from ..model import Model
 from ..report import Run
-from ..values import (ELL, Const, DictV, Inst, ListV, Sym, Term, TupleV, V, is_ell)
-from ..visits import (Config, configs_for, list_shapes, run_visit, substitutor_ctx, validator_ctx)
+from ..values import (ELL, Const, DictV, Inst, ListV, PropsV, SchemaV, Sym, Term, TupleV, V, is_ell)
+from ..visits import (Config, configs_for, list_shapes, member, run_visit, substitutor_ctx, validator_ctx)
 from ..vtable import lossy_image, surplus_reported, Row, canonical, comparison_operands, dedupe, extract, relation
 
 TYPE = {"visit_none": "NoneType", "visit_bool": "bool", "visit_int": "int", "visit_float": "float", "visit_str": "str",
@@ -69,7 +69,12 @@ def check(run: Run, prog: Program, model: Model, tier: str) -> None:
                 construct = f"{vis}.{hook}: {prop}"
                 if st.name == "FloatSchema" and prop == "value":
                     ok = [r for r in rows if r.error == "ValueValidationError" and "value" in r.pred_key and "props.value" in r.pred_key]
-                    if ok:
+                    loose = [(r, why) for r in ok for why in [loose_isclose(r.term)] if why]
+                    if loose:
+                        run.violated("CONSTRAINT", construct, loose[0][0].site,
+                                     f"a fixed float value is compared with a wider tolerance than the documented one: {loose[0][1]}",
+                                     witness="validate(schema.float(1e-12), 0.0) has no errors")
+                    elif ok:
                         run.holds("CONSTRAINT", construct, ok[0].site, "float value compared with the documented tolerance (isclose)", nontrivial=True)
                     else:
                         run.violated("CONSTRAINT", construct, f.loc, "a fixed float value is never compared with the validated value",
@@ -174,6 +179,7 @@ def check(run: Run, prog: Program, model: Model, tier: str) -> None:
         _any_table(run, prog, model, vis)
         _uuid(run, prog, model, vis)
     _list_forms(run, prog, model, tier)
+    _dict_decl(run, prog, model)
     _sibling(run, prog, model)
     _result_acc(run, prog, model)
     run.floor("CONSTRAINT", 30)
@@ -214,11 +220,13 @@ def _errs(p: Path) -> List[Event]:
     return [e for e in p.events if e.kind == "construct" and e.data.get("cls") is not None and e.data["cls"].name.endswith("ValidationError")]
 
 
-def _dict_table(run: Run, prog: Program, model: Model, vis: str) -> None:
+def _dict_table(run: Run, prog: Program, model: Model, vis: str, only: Optional[str] = None, rule: str = "DICT") -> None:
     f = model.visitors[vis].lookup("visit_dict")
     st = model.by_hook["visit_dict"]
     for cfg in configs_for(st, "quick"):
         if not cfg.overrides:
+            continue
+        if only is not None and only not in cfg.label:
             continue
         tbl = cfg.build()["keys"]
         paths = run_visit(prog, model, vis, "visit_dict", cfg, validator_ctx, unroll=1)
@@ -269,11 +277,12 @@ def _dict_table(run: Run, prog: Program, model: Model, vis: str) -> None:
         if not relaxed and not seen_extra:
             probs.append("undeclared keys are never reported although the table is not relaxed")
         if probs:
-            run.violated("DICT", construct, f.loc, "; ".join(sorted(set(probs)))[:300],
+            run.violated(rule, construct, f.loc, "; ".join(sorted(set(probs)))[:300],
                          witness="a dict lacking a required key / carrying an undeclared key gets the wrong verdict")
         else:
-            run.holds("DICT", construct, f.loc, "missing iff absent&required, extra iff undeclared&not relaxed, member iff present", nontrivial=True)
-    run.floor("DICT", 8)
+            run.holds(rule, construct, f.loc, "missing iff absent&required, extra iff undeclared&not relaxed, member iff present", nontrivial=True)
+    if only is None:
+        run.floor("DICT", 8)
 
 
 def _any_table(run: Run, prog: Program, model: Model, vis: str) -> None:
@@ -323,6 +332,82 @@ def _uuid(run: Run, prog: Program, model: Model, vis: str) -> None:
         run.holds("CONSTRAINT", construct, r.site, "InvalidUUIDVersion iff value.version != 4", nontrivial=True)
     else:
         run.violated("CONSTRAINT", construct, r.site, f"version error raised on `{r.pred_key[:60]}`", witness="wrong UUID versions accepted / v4 rejected")
+
+
+def loose_isclose(t: Any) -> Optional[str]:
+    """math.isclose(a, b, ...) with an absolute tolerance / a relative tolerance above the default 1e-09 (walks the term)."""
+    if isinstance(t, Term):
+        if t.op == "call" and t.args and t.args[0] == "math.isclose":
+            for a in t.args[1:]:
+                if isinstance(a, Term) and a.op == "kw" and len(a.args) == 2:
+                    k, v = a.args
+                    if k == "abs_tol" and not (isinstance(v, Const) and v.value == 0):
+                        return f"abs_tol={v.key()[:20]} makes every two values closer than that equal, however small they are"
+                    if k == "rel_tol" and not (isinstance(v, Const) and isinstance(v.value, (int, float)) and v.value <= 1e-09):
+                        return f"rel_tol={v.key()[:20]} exceeds the default 1e-09"
+        for a in t.args:
+            r = loose_isclose(a)
+            if r:
+                return r
+    return None
+
+
+def _dict_decl(run: Run, prog: Program, model: Model) -> None:
+    """DICT-DECL: the verdict on a dict rests on the key table that DictSchema.__call__ builds: `optional(k): S` is stored
+    as k -> (S, True), every other key as k -> (S, False), `...: ...` as the relaxed marker - whatever the order of
+    the entries (a flag that leaks from one entry to the next makes later required keys optional)."""
+    st = model.schemas["DictSchema"]
+    call = st.cls.methods.get("__call__")
+    optc = prog.cls("declaration.types._optional.optional")
+    if call is None:
+        raise AnalysisError("DictSchema.__call__ not found")
+    orders = [("optional first", ["o", "r"]), ("required first", ["r", "o"]), ("optional, marker, required", ["o", "...", "r"]),
+              ("two required around an optional", ["r", "o", "r2"])]
+    for label, order in orders:
+        it = Interp(prog, model, unroll=1)
+
+        def run1(i: Interp) -> V:
+            items: List[Tuple[V, V]] = []
+            for tok in order:
+                if tok == "...":
+                    items.append((ELL, ELL))
+                elif tok == "o":
+                    items.append((i._construct(optc, [Const("o1")], {}, None), member("O1")))
+                else:
+                    items.append((Const(tok + "1" if tok == "r" else tok), member(tok.upper())))
+            s_ = SchemaV(st.cls, PropsV(st.props_cls, {}, "schema"), "self")
+            return i.call_function(call, [DictV(items)], {}, self_val=s_)
+        ps = it.run_paths(run1)
+        construct = f"DictSchema.__call__: {label}"
+        probs: List[str] = []
+        rets = [p for p in ps if p.outcome == "return"]
+        for p in rets:
+            v = p.value
+            tbl = v.props.vals.get("keys") if isinstance(v, SchemaV) and isinstance(v.props, PropsV) else None
+            if not isinstance(tbl, DictV):
+                probs.append("no key table in the result")
+                continue
+            for tok in order:
+                if tok == "...":
+                    if tbl.lookup(ELL) is None:
+                        probs.append("the relaxed marker is lost")
+                    continue
+                key = Const("o1") if tok == "o" else Const(tok + "1" if tok == "r" else tok)
+                got = tbl.lookup(key)
+                want = tok == "o"
+                if not (isinstance(got, TupleV) and len(got.items) == 2 and isinstance(got.items[1], Const)):
+                    probs.append(f"entry of {key.key()} is {got.key()[:40] if got is not None else None}")
+                elif bool(got.items[1].value) != want:
+                    probs.append(f"key {key.key()} is stored as {'optional' if got.items[1].value else 'required'}, declared "
+                                 f"{'optional' if want else 'required'}")
+        if not rets:
+            run.undecided("DICT-DECL", construct, call.loc, "no returning path")
+        elif probs:
+            run.violated("DICT-DECL", construct, call.loc, "; ".join(sorted(set(probs)))[:300],
+                         witness="schema.dict({optional('name'): schema.str, 'id': schema.int}) accepts {}")
+        else:
+            run.holds("DICT-DECL", construct, call.loc, "flags follow the optional() wrapper entry by entry", nontrivial=True)
+    run.floor("DICT-DECL", 3)
 
 
 def _slice_tokens(v: V) -> Optional[List[str]]:
